@@ -548,8 +548,44 @@ def countBeyond (pos : Int) : List Iv → Nat
   | [] => 0
   | e :: es => if e.1 ≥ pos then 1 + countBeyond pos es else 0
 
-/-- `detect_reference_exons_beyond_polya` -> (events, external, internal) -/
+/-- `min(a, b)` where `none` is `math.inf` -/
+def minInf : Option Int → Option Int → Option Int
+  | some a, some b => some (min a b)
+  | some a, none => some a
+  | none, some b => some b
+  | none, none => none
+
+/-- the two tests of `detect_reference_exons_*` on the distance to the closest polyA/T position (`none` = `math.inf`:
+    `inf <= x` and `abs(t - inf) <= x` are both False) -/
+def missedTerminalOk (p : Params) (tlen : Int) : Option Int → Bool
+  | none => false
+  | some d => decide ((tlen ≤ p.max_fake_terminal_exon_len ∧ d ≤ p.max_fake_terminal_exon_len) ∨
+      (tlen ≤ p.max_missed_exon_len ∧ iabs (tlen - d) ≤ p.delta))
+
+/-- `detect_reference_exons_beyond_polya` -> (events, external, internal).
+    Since the fix of the sentinel distance an ABSENT position (−1) is infinitely far (`distOrInf`, as in `check_if_close`);
+    the earlier behaviour is `detectBeyondPolyaBuggy`. -/
 def detectBeyondPolya (p : Params) (iso : List Iv) (ext int : Int) (evs : List Event) :
+    Option (List Event × Int × Int) :=
+  let pos := if int ≠ -1 then int else ext
+  let c := countBeyond pos iso.reverse
+  if c = iso.length ∨ c = 0 then some (evs, ext, int)
+  else
+    match pyGet? iso (-(c : Int) - 1), iso.getLast? with
+    | some b, some lastE =>
+      let tlen := intervalsTotalLength (iso.drop (iso.length - c))
+      let d := minInf (distOrInf b.2 ext) (distOrInf b.2 int)
+      if missedTerminalOk p tlen d then
+        let n : Int := iso.length
+        let add := (List.range c).map (fun (i : Nat) =>
+          ({ ty := .terminal_exon_misalignment_right, isoRegion := (n - 2 - i, n - 2 - i) } : Event))
+        some (evs ++ add, lastE.2, lastE.2)
+      else some (evs, ext, int)
+    | _, _ => none
+
+/-- the code before the fix: `abs(exon_end - pos)` also for the sentinel −1, so near the chromosome start the distance to
+    coordinate −1 could win the `min` (`detectBeyondPolyaBuggy_witness`) -/
+def detectBeyondPolyaBuggy (p : Params) (iso : List Iv) (ext int : Int) (evs : List Event) :
     Option (List Event × Int × Int) :=
   let pos := if int ≠ -1 then int else ext
   let c := countBeyond pos iso.reverse
@@ -572,8 +608,26 @@ def countBefore (pos : Int) : List Iv → Nat
   | [] => 0
   | e :: es => if e.2 ≤ pos then 1 + countBefore pos es else 0
 
-/-- `detect_reference_exons_before_polyt` -/
+/-- `detect_reference_exons_before_polyt` (absent position = infinitely far, see `detectBeyondPolya`) -/
 def detectBeforePolyt (p : Params) (iso : List Iv) (ext int : Int) (evs : List Event) :
+    Option (List Event × Int × Int) :=
+  let pos := if int ≠ -1 then int else ext
+  let c := countBefore pos iso
+  if c = 0 ∨ c = iso.length then some (evs, ext, int)
+  else
+    match iso[c]?, iso.head? with
+    | some b, some firstE =>
+      let tlen := intervalsTotalLength (iso.take c)
+      let d := minInf (distOrInf b.1 ext) (distOrInf b.1 int)
+      if missedTerminalOk p tlen d then
+        let add := (List.range c).map (fun (i : Nat) =>
+          ({ ty := .terminal_exon_misalignment_left, isoRegion := ((i : Int), (i : Int)) } : Event))
+        some (evs ++ add, firstE.1, firstE.1)
+      else some (evs, ext, int)
+    | _, _ => none
+
+/-- `detect_reference_exons_before_polyt` before the fix -/
+def detectBeforePolytBuggy (p : Params) (iso : List Iv) (ext int : Int) (evs : List Event) :
     Option (List Event × Int × Int) :=
   let pos := if int ≠ -1 then int else ext
   let c := countBefore pos iso
